@@ -172,8 +172,18 @@ def r03_2_strict_tests(ctx, rule: str = 'R03.2') -> List[Ob]:
                     continue
                 tau = st.targets[0].id
                 call = st.value
-                # the test is the next `if` in the same block
-                nxt = next((s for s in blk[k + 1:] if isinstance(s, ast.If)), None)
+                # the test is the next use of the window in the same block: the condition of an `if`, or a boolean
+                # that is assigned (`hit = guard and delta < tau`)
+                nxt = None
+                for s_ in blk[k + 1:]:
+                    if not any(isinstance(x, ast.Name) and x.id == tau for x in ast.walk(s_)):
+                        continue
+                    if isinstance(s_, ast.If) and any(isinstance(x, ast.Name) and x.id == tau for x in ast.walk(s_.test)):
+                        nxt = s_
+                    elif isinstance(s_, ast.Assign) and isinstance(s_.value, (ast.BoolOp, ast.Compare)):
+                        nxt = ast.If(test=s_.value, body=[s_], orelse=[])
+                        ast.copy_location(nxt, s_)
+                    break
                 t = f"{f.name}: the window from get_tau is used in a strict test `delta < {tau}` (a tie with the window is not a coincidence)"
                 if nxt is None or len(call.args) < 4:
                     obs.append(violation(rule, t, f.loc(st), key=f"{_fn(f)}::tau-unused::{k}", detail='no test follows'))
